@@ -555,7 +555,63 @@ def offset_discipline(ctx):
     ctx.require_min(P, 'RF2-offset', n_loops, 1, 'data-dependent copy loops')
 
 
+def object_layer_forwarding(ctx):
+    """The object layer (co_obj.c) is a thin dispatch onto the type functions: with valid pointers and the type function
+    present, every wrapper calls its type function exactly once on EVERY path - whatever the entry's key flags (direct,
+    node-id, access) or data are (left unbound here) - and hands the numeric argument (size / width / reset parameter) on
+    unchanged.  The parameter reload on NMT reset (COObjReset on 1010h:0, usually a direct entry), the SDO transfers and the
+    typed accessors all go through these wrappers."""
+    m = ctx.m
+    from canalyze.ir import callee_slot
+    props = ['C06', 'C17']
+    n = 0
+    for f, fn in sorted(m.funcs.items()):
+        if not fn.unit.endswith('co_obj.c'):
+            continue
+        slots = set()
+        for x in walk(fn.body):
+            if x.k == 'call' and callee_name(x) is None and callee_slot(x):
+                slots.add(callee_slot(x))
+        if not slots:
+            continue
+        n += 1
+        pe = PEval(m, f)
+        pe.record_sets = False
+        pe.store_filter = lambda k, fld: False
+        inputs = dict((prm[0], 1) for prm in fn.params if is_pointer(prm[2]))
+        inputs.update({'obj->Type': 1, 'type->Reset': 1})
+        for sl_ in slots:
+            inputs.update({'type->%s' % sl_[1]: 1, 'obj->Type->%s' % sl_[1]: 1})
+        # the function's own type function is the last one it calls (a rewind through the Reset function may precede it)
+        sl = sorted(slots, key=lambda q: (q[1] == 'Reset', q[1]))[0]
+        nums = {}
+        for i, prm in enumerate(fn.params):
+            if not is_pointer(prm[2]):
+                inputs[prm[0]] = 40 + i
+                nums[prm[0]] = 40 + i
+        trs = pe.run(inputs)
+        site = '%s forwards to %s.%s' % (f, sl[0], sl[1])
+        bad = None
+        name = '%s.%s' % sl
+        for t in trs:
+            cs = [c for c in t.calls() if c[1] == name]
+            if len(cs) != 1:
+                bad = 'a path calls the type function %d times (calls: %s)' % (len(cs), t.call_names())
+            elif nums and not all(v in cs[0][2] for v in nums.values()):
+                bad = 'numeric argument not handed on unchanged (%s, required %s)' % (cs[0][2], sorted(nums.values()))
+        if not trs:
+            bad = 'no path'
+        if bad:
+            ctx.ob(props, 'RF2-obj-forward', f, site, None)
+            ctx.find(props, 'RF2-obj-forward', f, 'forward:%s' % sl[1], m.loc(f, fn.line), '%s: %s' % (site, bad))
+        else:
+            ctx.ob(props, 'RF2-obj-forward', f, site, 'on every path, independent of the key flags and data')
+    ctx.inst('DICT.obj-wrappers', n)
+    ctx.require_min(props, 'RF2-obj-forward', n, 8, 'object-layer wrappers')
+
+
 def run(ctx):
+    object_layer_forwarding(ctx)
     offset_discipline(ctx)
     init_walk(ctx)
     search_shape(ctx)
